@@ -18,7 +18,7 @@ Theorem C16_c_reading_has_the_same_value :
          (tadd tsub tmul tdiv : T -> T -> T) (tneg : T -> T) (teqb tltb tleb : T -> T -> bool)
          (tfn : string -> list T -> T),
     (forall m e, tneg (of_lit (- m) e) = of_lit m e) ->
-    forall inp st e,
+    forall inp st e, no_clit e = true ->
       eval T of_Z of_lit of_clit tadd tsub tmul tdiv tneg teqb tltb tleb tfn inp st (canon e) =
       eval T of_Z of_lit of_clit tadd tsub tmul tdiv tneg teqb tltb tleb tfn inp st e.
 Proof. exact canon_eval. Qed.
